@@ -511,6 +511,95 @@ func frameSection(run *hx.Run, rng *hx.Rng) {
 		}
 	}
 	tick("E")
+
+	// ---- F. pipelined sessions (real primitives): the reader collects several Msgs BEFORE consuming any payload, as
+	// Peer.readLoop does while a protocol handler is still busy with an earlier message. Every payload must still be
+	// exactly what was written when it is finally consumed (a delivered Msg does not change under later reads).
+	nPipe := 30
+	if run.Thorough() {
+		nPipe = 600
+	}
+	pipeSizes := []int{0, 0, 1, 1, 15, 16, 17, 17, 100, 1024, 1024, 4000, 65534, 65535, 65536, 70000}
+	for it := 0; it < nPipe; it++ {
+		sn := it%3 == 2
+		k := 3 + rng.Intn(4)
+		lag := k // how many Msgs are held unconsumed: k = all of them first; otherwise a sliding window
+		if it%2 == 1 {
+			lag = 2 + rng.Intn(2)
+		}
+		ms := make([]wmsg, k)
+		big := 0
+		for i := range ms {
+			n := rng.Pick(pipeSizes)
+			if n > 4000 {
+				if big++; big > 2 {
+					n = rng.Pick([]int{0, 1, 16, 17, 1024})
+				}
+			}
+			pay := rng.Bytes(n)
+			if it%4 == 0 && i > 0 && len(ms[0].payload) == n { // same size as an earlier frame: silent substitution would go unnoticed by decoders
+				pay = bytes.Repeat([]byte{byte(0xA0 + i)}, n)
+			}
+			ms[i] = wmsg{code: uint64(16 + rng.Intn(8)), size: uint32(n), payload: pay}
+		}
+		p := prims{preload: rng.Bytes(40), aes: rng.Bytes(32), mac: rng.Bytes(32)}
+		wire, _, werr := writeSession(p, sn, ms)
+		sizes := make([]int, k)
+		for i := range ms {
+			sizes[i] = len(ms[i].payload)
+		}
+		in := map[string]interface{}{"aes": hx.Hex(p.aes), "mac": hx.Hex(p.mac), "preload": hx.Hex(p.preload), "snappy": sn, "sizes": sizes, "held": lag}
+		run.Current(fmt.Sprintf("pipelined session %d snappy=%v sizes=%v held=%d", it, sn, sizes, lag))
+		if werr != "-" {
+			run.Violate("roundtrip", "rlpxFrameRW.WriteMsg failed (pipelined)", in, "write error at message "+werr)
+			continue
+		}
+		out := hx.Safe(func() string {
+			r := p.reader(newMemConn(wire), sn)
+			var held []p2p.Msg
+			var heldIdx []int
+			check := func() string {
+				m, idx := held[0], heldIdx[0]
+				held, heldIdx = held[1:], heldIdx[1:]
+				got, err := ioutil.ReadAll(m.Payload)
+				if err != nil {
+					return fmt.Sprintf("payload of message %d unreadable: %v", idx, err)
+				}
+				if m.Code != ms[idx].code || int(m.Size) != len(ms[idx].payload) || !bytes.Equal(got, ms[idx].payload) {
+					return fmt.Sprintf("message %d (of %d, %d held unconsumed) was written as code=%d len=%d but is consumed as code=%d size=%d len=%d differing-bytes=%v",
+						idx, k, lag, ms[idx].code, len(ms[idx].payload), m.Code, m.Size, len(got), !bytes.Equal(got, ms[idx].payload))
+				}
+				return ""
+			}
+			for i := 0; i < k; i++ {
+				m, err := r.ReadMsg()
+				if err != nil {
+					return fmt.Sprintf("ReadMsg %d failed: %v", i, err)
+				}
+				held, heldIdx = append(held, m), append(heldIdx, i)
+				if len(held) > lag {
+					if e := check(); e != "" {
+						return e
+					}
+				}
+			}
+			for len(held) > 0 {
+				if e := check(); e != "" {
+					return e
+				}
+			}
+			return ""
+		})
+		run.Count("frame:pipelined:" + map[bool]string{true: "intact", false: "damaged"}[out == ""])
+		if out != "" {
+			kind := "altered-delivery"
+			if strings.HasPrefix(out, "panic") {
+				kind = "panic"
+			}
+			run.Violate(kind, "rlpxFrameRW pipelined reads: a delivered Msg changed under later ReadMsg calls", in, out)
+		}
+	}
+	tick("F")
 }
 
 const maxU24 = int(p2p.VerifMaxUint24)
